@@ -183,6 +183,12 @@ func (th *Thread) callSSA(caller *frame, pos token.Pos, fn *ssa.Function, args [
 		return nil
 	}
 	if pkg != nil && !isRepoPkg(pkg) && !allowedExternal(pkg) {
+		if r.inInit {
+			// package initialisation (e.g. a package-level regexp.MustCompile): the variable gets the
+			// zero value instead of making every harness of the package undecidable; code that later
+			// USES it calls into the un-modelled package again and is reported there
+			return r.zeroResults(fn)
+		}
 		r.unsupported("call into un-modelled external function %s (at %s)", fn, r.E.Pos(pos))
 	}
 	if fn.Blocks == nil {
